@@ -16,6 +16,7 @@ package cert
 import (
 	"bytes"
 	"context"
+	"encoding/binary"
 	"fmt"
 	"os"
 	"sort"
@@ -1142,6 +1143,9 @@ func (q *c11Seq) finish() {
 	perFile := 300
 	if q.stream == "rnd" {
 		perFile = 150 // longer sequences with larger signature tables
+	}
+	if q.stream == "key" {
+		perFile = 40
 	}
 	s := q.v.Stream(q.stream+q.w.tag+"_"+q.w.name, checker, perFile)
 	term := fmt.Sprintf("(%d%%nat, [%s], [%s])", q.cap, strings.Join(q.tbl, ";"), strings.Join(q.items, ";\n "))
@@ -2299,6 +2303,178 @@ func (w *c11World) lengths(v *verifOut) {
 	}
 }
 
+// ---------------------------------------------------------------- the key is an injective encoding
+//
+// The model takes for granted that the cache key is an injective encoding of
+// (kind, message, scheme, [(signer, signature bytes)]).  keyFamilies tests that premise on the
+// code with PAIRS of different requests built to collide under naive layouts of the key: bytes
+// moved between the end of the message and the start of the signature description ("shift"), and
+// between adjacent signer entries ("merge"), for every plausible layout of the description
+// (scheme tag none / byte / name; count none / 1 / 4 / 8 bytes LE / BE / varint; signer id 4 / 8
+// bytes LE / BE / varint; length prefix none / 1 / 4 / 8 bytes LE / BE / varint).
+// Probe (independent of how the key function is spelled): a fresh cached authority over a scheme
+// that accepts everything verifies the first request, then the second; if the second is answered
+// without reaching the scheme, the two requests share a key.  All pairs are also driven through
+// the real twins (genuine request first), which turns a shared key into a verdict difference.
+
+type c11Layout struct {
+	name             string
+	tag              func(kind int) []byte
+	count, id, width func(x uint64) []byte // width = length prefix of the signature bytes
+}
+
+func c11NumEncs(none bool) map[string]func(uint64) []byte {
+	m := map[string]func(uint64) []byte{
+		"u8":     func(x uint64) []byte { return []byte{byte(x)} },
+		"u32le":  func(x uint64) []byte { return binary.LittleEndian.AppendUint32(nil, uint32(x)) },
+		"u32be":  func(x uint64) []byte { return binary.BigEndian.AppendUint32(nil, uint32(x)) },
+		"u64le":  func(x uint64) []byte { return binary.LittleEndian.AppendUint64(nil, x) },
+		"u64be":  func(x uint64) []byte { return binary.BigEndian.AppendUint64(nil, x) },
+		"varint": func(x uint64) []byte { return binary.AppendUvarint(nil, x) },
+	}
+	if none {
+		m["none"] = func(uint64) []byte { return nil }
+	}
+	return m
+}
+
+func c11Layouts() []c11Layout {
+	tags := map[string]func(int) []byte{
+		"notag":   func(int) []byte { return nil },
+		"tagbyte": func(k int) []byte { return []byte{byte(k)} }, // 1 = ecdsa, 2 = eddsa as in cacheKey
+		"tagname": func(k int) []byte { return []byte([]string{"", "ecdsa", "eddsa", "bls12"}[k]) },
+	}
+	var out []c11Layout
+	for _, tn := range []string{"notag", "tagbyte", "tagname"} {
+		for _, cn := range []string{"none", "u8", "u32le", "u32be", "u64le", "u64be", "varint"} {
+			for _, in := range []string{"u32le", "u32be", "u64le", "u64be", "varint"} {
+				for _, ln := range []string{"none", "u8", "u32le", "u32be", "u64le", "u64be", "varint"} {
+					out = append(out, c11Layout{name: tn + "/count-" + cn + "/id-" + in + "/len-" + ln,
+						tag: tags[tn], count: c11NumEncs(true)[cn], id: c11NumEncs(false)[in], width: c11NumEncs(true)[ln]})
+				}
+			}
+		}
+	}
+	return out
+}
+
+// entry: one signer's part of the description; head: everything before the first entry
+func (l c11Layout) entryPrefix(id hotstuff.ID, n int) []byte {
+	return append(l.id(uint64(id)), l.width(uint64(n))...)
+}
+func (l c11Layout) describe(s *c11Sig) []byte {
+	out := append(l.tag(s.kind), l.count(uint64(len(s.ids)))...)
+	for i, id := range s.ids {
+		out = append(out, l.entryPrefix(id, len(s.parts[i]))...)
+		out = append(out, s.parts[i]...)
+	}
+	return out
+}
+
+type c11AcceptAll struct{ calls int }
+
+func (c *c11AcceptAll) Sign([]byte) (hotstuff.QuorumSignature, error) {
+	c.calls++
+	return nil, fmt.Errorf("no")
+}
+func (c *c11AcceptAll) Combine(...hotstuff.QuorumSignature) (hotstuff.QuorumSignature, error) {
+	c.calls++
+	return nil, fmt.Errorf("no")
+}
+func (c *c11AcceptAll) Verify(hotstuff.QuorumSignature, []byte) error { c.calls++; return nil }
+func (c *c11AcceptAll) BatchVerify(hotstuff.QuorumSignature, map[hotstuff.ID][]byte) error {
+	c.calls++
+	return nil
+}
+
+// sharesKey: does the second request get answered from what the first one left in the cache?
+func (w *c11World) sharesKey(r1, r2 *c11Op) bool {
+	stub := &c11AcceptAll{}
+	cfg := core.NewRuntimeConfig(w.ids[0], w.keys[0], core.WithCache(8))
+	w.addReplicas(cfg)
+	a := NewAuthority(cfg, w.chain, stub)
+	c11Run(a, r1)
+	before := stub.calls
+	res := c11Run(a, r2)
+	return res.verdict == 0 && stub.calls == before
+}
+
+func (w *c11World) keyFamilies(v *verifOut) {
+	if w.name == crypto.NameBLS12 {
+		return // a bitfield cannot name the ids such pairs need, and a point has a fixed size
+	}
+	kind := map[string]int{crypto.NameECDSA: c11Ecdsa, crypto.NameEDDSA: c11Eddsa}[w.name]
+	signer, other, ghost := w.ids[1], w.ids[2], hotstuff.ID(7)
+	type pair struct {
+		family, layout string
+		r1, r2         *c11Op
+	}
+	var pairs []pair
+	for _, l := range c11Layouts() {
+		for _, m := range [][]byte{[]byte("ab"), {}} {
+			// shift: msg1 = m ++ (head and entry prefix of the ghost's entry), signed honestly;
+			// request 2: message m, one entry "by" the ghost whose bytes are the description of the honest signature
+			guess := map[int]int{c11Eddsa: 64, c11Ecdsa: 71}[kind] // an ECDSA signature's length varies: retry with another message
+			for attempt := 0; attempt < 16; attempt++ {
+				mm := append(append([]byte(nil), m...), byte('0'+attempt))
+				probe := &c11Sig{kind: kind, ids: []hotstuff.ID{signer}, parts: [][]byte{make([]byte, guess)}}
+				inner := len(l.describe(probe))
+				tail := append(append(l.tag(kind), l.count(1)...), l.entryPrefix(ghost, inner)...)
+				msg1 := append(append([]byte(nil), mm...), tail...)
+				honest := w.atom(signer, msg1)
+				if len(honest.parts[0]) != guess {
+					continue
+				}
+				forged := &c11Sig{kind: kind, ids: []hotstuff.ID{ghost}, parts: [][]byte{l.describe(honest)},
+					how: fmt.Sprintf("one entry by replica %d whose bytes are the %s description of [%s]", ghost, l.name, honest.how)}
+				pairs = append(pairs, pair{"shift", l.name,
+					&c11Op{op: "verify", sig: honest, msg: msg1},
+					&c11Op{op: "verify", sig: forged, msg: mm, alter: "key-layout-shift"}})
+				break
+			}
+		}
+		// merge: two genuine entries versus one entry whose bytes swallow the second entry
+		m := []byte("ab")
+		two := w.multi(m, signer, other)
+		merged := append(append(append([]byte(nil), two.parts[0]...), l.entryPrefix(two.ids[1], len(two.parts[1]))...), two.parts[1]...)
+		one := &c11Sig{kind: kind, ids: []hotstuff.ID{two.ids[0]}, parts: [][]byte{merged},
+			how: fmt.Sprintf("one entry holding both entries of [%s] in the %s layout", two.how, l.name)}
+		pairs = append(pairs, pair{"merge", l.name,
+			&c11Op{op: "verify", sig: two, msg: m},
+			&c11Op{op: "verify", sig: one, msg: m, alter: "key-layout-merge"}})
+	}
+	// the premise itself, on the code
+	var drive []pair // pairs also driven through the real twins: every shared key, and a sample of the rest
+	for i, p := range pairs {
+		shared := w.sharesKey(p.r1, p.r2)
+		if shared || i%9 == 0 {
+			drive = append(drive, p)
+		}
+		v.Seen(fmt.Sprintf("keypair|%s|%s|%s|%d", w.name, p.family, p.layout, len(p.r2.msg)), true, nil)
+		v.Count(w.name + ".key-pair." + p.family)
+		if !shared {
+			v.Oracle(true, "", "", nil)
+			continue
+		}
+		fp := "cache.key:two-different-requests-one-key:" + p.family
+		if c11FailCount[fp] < 2 {
+			c11FailCount[fp]++
+			v.Oracle(false, fp, fmt.Sprintf("%s: two different requests share one cache key (collide under the layout %s)", w.name, p.layout),
+				map[string]any{"scheme": w.name, "family": p.family, "layout": p.layout, "first_request": p.r1.desc(), "second_request": p.r2.desc(),
+					"replay": "a fresh cert.NewAuthority(cfg WithCache(8)) over any scheme: Verify the first request (accepted, remembered), then the second: it is answered from the cache"})
+		}
+	}
+	// and through the real twins: genuine request first, then its would-be twin
+	for i := 0; i < len(drive); i += 10 {
+		q := c11NewSeq(w, v, "key", 100)
+		for _, p := range drive[i:min(i+10, len(drive))] {
+			q.do(p.r1)
+			q.do(p.r2)
+		}
+		q.finish()
+	}
+}
+
 // hibits: a verification with the genuine labels (remembered), then the same signature with one
 // or all signer labels replaced by ids that differ only in high bits (id + m*2^k for every k in
 // 8..31, resp. 8..20 for BLS bitfields), then the genuine one again.  Single signatures,
@@ -2393,6 +2569,7 @@ func TestVerifC11(t *testing.T) {
 		w.certs(v)
 		w.fields(v)
 		w.lengths(v)
+		w.keyFamilies(v)
 		w.concurrent(v, v.Pick(4, 40), 6, v.Pick(12, 40))
 		switch name {
 		case crypto.NameBLS12:
